@@ -3,7 +3,7 @@
    processImportValues :225, processDependencyImportValues :340, pathToMap/set :206),
    values.go (Table :56, tableLookup :87, PathValue :193, pathValue :200), and the load-time
    gate pkg/chart/v2/metadata.go Validate :88 / dependency.go Validate :55 as called by
-   loader.LoadFiles :170 for the chart and, recursively, every subchart.
+   loader.LoadFiles :172 for the chart and, recursively, every subchart.
 
    Pointers that can be nil are options: c.Metadata, the entries of Metadata.Dependencies
    (a YAML `- null` list item); Metadata.Dependencies itself distinguishes the nil slice
